@@ -3,7 +3,8 @@
 spec/OAuthFlow.tla is a sequential state machine of AuthorizationCodeHandler.Authorize with the
 environment's choice as a parameter of every action.  TLC
   (a) checks the design invariants exhaustively (OAuthFlow_mc.cfg; OAuthFlow_lead.cfg adds the document
-      variants for which the model is expected to violate an invariant: leads, confirmed only by replay),
+      variants for which the model is expected to violate an invariant: leads, confirmed only by replay;
+      none at present, see LEAD_CFG),
   (b) dumps the state graph modulo the ghost variables (OAuthFlow_cover.cfg / OAuthFlow_gen.cfg,
       `-dump dot,actionlabels`); the graph is a DAG whose root-to-leaf label sequences are the behaviours:
       a transition cover (every labelled edge), seeded samples, and (thorough) every terminal behaviour of
@@ -19,6 +20,7 @@ ACTIONS = ["Setup", "ParseChallenge", "FetchPRM", "FallbackRootAS", "FetchASM", 
            "GetCode", "CheckState", "CheckIss", "Exchange", "Install", "Finish"]
 RESULTS = ["ok", "nil403", "parse", "no_as", "asm", "prereg", "dcr", "noreg", "fetcher", "state", "iss", "exchange", "post"]
 SAFE = ("https", "lo")
+LEAD_CFG = None  # "OAuthFlow_lead.cfg" when OAuthFlow.PRMLeadDocs is not empty
 # relation classes of an issuer identifier (OAuthFlow.tla: IssSame, IssEquiv, IssNear); used here only to name
 # signatures and to check that every class was concretised (the verdict is the monitor's)
 ISS_MATCH = ("exact", "slash", "case", "dot")
@@ -272,14 +274,18 @@ def run(tier, seed, replay):
     # 1. design: exhaustive model check of the invariants
     res = vlib.run_tlc("OAuthFlowMC", "OAuthFlow_mc.cfg", workers=workers, timeout=600, heap_gb=4)
     vlib.tlc_must_pass(res, "OAuthFlow_mc.cfg")
-    v.add_tlc("OAuthFlow_mc.cfg (design invariants, all variant sets without lead documents)", res)
+    v.add_tlc("OAuthFlow_mc.cfg (design invariants, all variant sets)", res)
     if not res.ok:
         raise vlib.MachineryError("OAuthFlow violates its own invariant %s: the model is broken" % res.violation)
-    # 1b. leads: document variants for which the code-shaped model violates an invariant
-    lead = vlib.run_tlc("OAuthFlowMC", "OAuthFlow_lead.cfg", workers=workers, timeout=600, heap_gb=4)
-    vlib.tlc_must_pass(lead, "OAuthFlow_lead.cfg")
-    v.add_tlc("OAuthFlow_lead.cfg (lead documents included)", lead)
-    leads = [lead.violation] if lead.violation else []
+    # 1b. leads: document variants for which the code-shaped model violates an invariant (OAuthFlow.PRMLeadDocs).
+    # There are none at present ("field_js" was one until /repo 7fe7bee): OAuthFlow_mc.cfg then already covers every
+    # variant set and the lead configuration would repeat it.
+    leads = []
+    if LEAD_CFG:
+        lead = vlib.run_tlc("OAuthFlowMC", LEAD_CFG, workers=workers, timeout=600, heap_gb=4)
+        vlib.tlc_must_pass(lead, LEAD_CFG)
+        v.add_tlc(LEAD_CFG + " (lead documents included)", lead)
+        leads = [lead.violation] if lead.violation else []
     v.cov["model_leads"] = leads
     # 2. behaviours
     wd = vlib.scratch("tlc-")
